@@ -207,6 +207,22 @@ type Step struct {
 	PreCancel bool   `json:"pre_cancel,omitempty"` // acq with an already cancelled context
 	// Deadline (with PreCancel): the context is over because its deadline has passed (ctx.Err() is DeadlineExceeded)
 	Deadline bool `json:"deadline,omitempty"`
+	// Ctx: the kind of context the acquire is given. "" = context.WithCancel (or, with PreCancel+Deadline, an expired
+	// WithDeadline); "background" | "todo" | "value" (WithValue over Background) | "nocancel" (WithoutCancel over a
+	// parent that the cancel step does cancel): contexts whose Done() is nil - once queued such an acquire cannot be
+	// cancelled, a cancel step aimed at it changes nothing; "live" = a context owned by the harness (ctx.go) with a
+	// deadline that the cancel step FIRES while the acquire is queued (Err() is then DeadlineExceeded; with PreCancel
+	// it has fired before the call)
+	Ctx string `json:"ctx,omitempty"`
+}
+
+// uncancellable: the step's context can never end
+func (s Step) uncancellable() bool {
+	switch s.Ctx {
+	case "background", "todo", "value", "nocancel":
+		return true
+	}
+	return false
 }
 
 type CaseCtl struct {
@@ -235,15 +251,25 @@ type ctlModel struct {
 	status map[int]mstatus
 	key    map[int]int
 	write  map[int]bool
-	next   int
+	// fixed: actors whose context can never end (cancel steps do not touch them)
+	fixed map[int]bool
+	next  int
 }
 
 func newCtlModel(c Config) *ctlModel {
-	m := &ctlModel{status: map[int]mstatus{}, key: map[int]int{}, write: map[int]bool{}}
+	m := &ctlModel{status: map[int]mstatus{}, key: map[int]int{}, write: map[int]bool{}, fixed: map[int]bool{}}
 	for range c.Keys {
 		m.keys = append(m.keys, &keyModel{size: c.RW, held: map[int]int{}})
 	}
 	return m
+}
+
+// acquireStep books an acq step (generator and executor go through here, so that both read the step the same way)
+func (m *ctlModel) acquireStep(st Step, rw int) {
+	if st.uncancellable() {
+		m.fixed[st.Actor] = true
+	}
+	m.acquire(st.Actor, st.Key, st.Write, st.PreCancel && !st.uncancellable(), rw)
 }
 
 func (m *ctlModel) acquire(actor, key int, write, preCancel bool, rw int) {
@@ -276,8 +302,8 @@ func (m *ctlModel) release(actor int) {
 }
 
 func (m *ctlModel) cancel(actor int) {
-	if m.status[actor] != stWaiting {
-		return // cancelling a holder or a finished actor has no effect
+	if m.status[actor] != stWaiting || m.fixed[actor] {
+		return // cancelling a holder or a finished actor has no effect; neither has "cancelling" a context that cannot end
 	}
 	k := m.keys[m.key[actor]]
 	for i, w := range k.queue {
@@ -292,6 +318,27 @@ func (m *ctlModel) cancel(actor int) {
 			return
 		}
 	}
+}
+
+// cancellableWaiters: the waiters a cancel step can end
+func (m *ctlModel) cancellableWaiters() []int {
+	var out []int
+	for _, a := range m.actorsIn(stWaiting) {
+		if !m.fixed[a] {
+			out = append(out, a)
+		}
+	}
+	return out
+}
+
+// genCtxKind draws the kind of context of an acquire: nearly half of them the plain cancellable one; fixed = the
+// kinds that can never end are allowed
+func genCtxKind(t *rapid.T, fixed bool) string {
+	kinds := []string{"", "", "", "", "", "", "live", "live", "live", "background", "background", "todo", "value", "nocancel"}
+	if !fixed {
+		kinds = kinds[:9]
+	}
+	return rapid.SampledFrom(kinds).Draw(t, "ctxkind")
 }
 
 func (m *ctlModel) actorsIn(st mstatus) []int {
@@ -314,7 +361,7 @@ func GenCtl(t *rapid.T) CaseCtl {
 		add := func(st Step) {
 			if st.Op == "acq" {
 				m.next++
-				m.acquire(st.Actor, st.Key, st.Write, false, c.RW)
+				m.acquireStep(st, c.RW)
 			}
 			c.Steps = append(c.Steps, st)
 		}
@@ -323,17 +370,18 @@ func GenCtl(t *rapid.T) CaseCtl {
 			k = rapid.SampledFrom([]int{33, 40, 65, 70, 130}).Draw(t, "deeperreaders")
 		}
 		if rapid.Bool().Draw(t, "deepcancel") {
-			add(Step{Op: "acq", Actor: m.next})              // a reader holds
-			add(Step{Op: "acq", Actor: m.next, Write: true}) // a writer waits at the head
+			add(Step{Op: "acq", Actor: m.next}) // a reader holds
+			// a writer waits at the head; its context ends by cancellation or by its deadline firing
+			add(Step{Op: "acq", Actor: m.next, Write: true, Ctx: rapid.SampledFrom([]string{"", "live"}).Draw(t, "deepheadctx")})
 			for i := 0; i < k; i++ {
-				add(Step{Op: "acq", Actor: m.next})
+				add(Step{Op: "acq", Actor: m.next, Ctx: genCtxKind(t, false)})
 			}
 			m.cancel(1)
 			c.Steps = append(c.Steps, Step{Op: "cancel", Actor: 1})
 		} else {
 			add(Step{Op: "acq", Actor: m.next, Write: true}) // a writer holds
 			for i := 0; i < k; i++ {
-				add(Step{Op: "acq", Actor: m.next})
+				add(Step{Op: "acq", Actor: m.next, Ctx: genCtxKind(t, false)})
 			}
 			m.release(0)
 			c.Steps = append(c.Steps, Step{Op: "rel", Actor: 0})
@@ -341,7 +389,7 @@ func GenCtl(t *rapid.T) CaseCtl {
 		nsteps = rapid.IntRange(0, 8).Draw(t, "deepmore")
 	}
 	for i := 0; i < nsteps; i++ {
-		holders, waiters := m.actorsIn(stHolding), m.actorsIn(stWaiting)
+		holders, waiters := m.actorsIn(stHolding), m.cancellableWaiters()
 		// weights: acquire 5, release 4 (if any holder), cancel waiter 2 (if any), cancel other 1 (rare)
 		var opts []string
 		for j := 0; j < 5; j++ {
@@ -363,8 +411,16 @@ func GenCtl(t *rapid.T) CaseCtl {
 				Key:       rapid.IntRange(0, len(c.Keys)-1).Draw(t, "key"),
 				PreCancel: rapid.IntRange(0, 11).Draw(t, "pre") == 0}
 			st.Deadline = st.PreCancel && rapid.Bool().Draw(t, "deadline")
+			// at most 4 contexts that can never end per case (a failing case cannot get rid of their waiters)
+			st.Ctx = genCtxKind(t, len(m.fixed) < 4)
+			if st.uncancellable() {
+				st.PreCancel, st.Deadline = false, false
+			}
+			if st.Ctx == "live" {
+				st.Deadline = false
+			}
 			m.next++
-			m.acquire(st.Actor, st.Key, st.Write, st.PreCancel, c.RW)
+			m.acquireStep(st, c.RW)
 			c.Steps = append(c.Steps, st)
 		case "rel":
 			a := rapid.SampledFrom(holders).Draw(t, "holder")
@@ -386,6 +442,7 @@ func GenCtl(t *rapid.T) CaseCtl {
 type actorRun struct {
 	op     *vkit.Op
 	pre    bool // acquired with an already cancelled context
+	live   bool // the context is the harness's live-deadline context
 	cancel context.CancelFunc
 	w      *semap.Weighted
 	err    error
@@ -410,18 +467,26 @@ func ExecCtl(c CaseCtl) *vkit.Result {
 			r.cancel()
 		}
 		if res.Fail != nil {
-			sched.Quiesce()
-			for a, r := range runs {
-				if r.op.Done() && r.err == nil && r.relOp == nil && r.w != nil {
-					a, r := a, r
-					go func() {
-						defer func() { _ = recover() }()
-						if m.write[a] {
-							sm.ReleaseWrite(keyOf(m.key[a]), r.w)
-						} else {
-							sm.ReleaseRead(keyOf(m.key[a]), r.w)
-						}
-					}()
+			// release whatever has been acquired, and again what that admitted, until nothing moves: waiters on
+			// contexts that never end leave only by being admitted
+			for round := 0; round < 300; round++ {
+				sched.Quiesce()
+				moved := false
+				for a, r := range runs {
+					if r.op.Done() && r.err == nil && r.relOp == nil && r.w != nil {
+						a, r := a, r
+						moved = true
+						r.relOp = sched.Go(fmt.Sprintf("cleanup-rel-%d", a), func() {
+							if m.write[a] {
+								sm.ReleaseWrite(keyOf(m.key[a]), r.w)
+							} else {
+								sm.ReleaseRead(keyOf(m.key[a]), r.w)
+							}
+						})
+					}
+				}
+				if !moved {
+					break
 				}
 			}
 		}
@@ -564,18 +629,35 @@ func ExecCtl(c CaseCtl) *vkit.Result {
 				res.Class("default-options")
 			}
 			ctx, cancel := context.WithCancel(context.Background())
-			if st.PreCancel && st.Deadline {
+			switch {
+			case st.uncancellable():
+				st.PreCancel = false
+				ctx = fixedContext(st.Ctx, ctx) // cancel still ends the parent of a "nocancel" context
+			case st.Ctx == "live":
+				lc := newLiveDeadline()
+				ctx, cancel = lc, lc.fire
+				if st.PreCancel {
+					lc.fire()
+					res.Class("acquire-with-fired-live-deadline")
+				}
+			case st.Ctx != "":
+				res.Skip("unknown-ctx-kind")
+				continue
+			case st.PreCancel && st.Deadline:
 				ctx, cancel = context.WithDeadline(context.Background(), time.Unix(1, 0)) // long past: no timer involved
 				res.Class("acquire-with-expired-deadline")
-			} else if st.PreCancel {
+			case st.PreCancel:
 				cancel()
 				res.Class("pre-cancelled-acquire")
 			}
-			r := &actorRun{cancel: cancel, pre: st.PreCancel}
+			r := &actorRun{cancel: cancel, pre: st.PreCancel, live: st.Ctx == "live"}
 			runs[st.Actor] = r
 			key, write := keyOf(st.Key), st.Write
 			m.next++
-			m.acquire(st.Actor, st.Key, st.Write, st.PreCancel, c.RW)
+			m.acquireStep(st, c.RW)
+			if m.status[st.Actor] == stWaiting && st.uncancellable() {
+				res.Class("uncancellable-acquire-queues:" + st.Ctx)
+			}
 			r.op = sched.Go(fmt.Sprintf("acq-%d", st.Actor), func() {
 				if write {
 					r.w, r.err = sm.AcquireWrite(ctx, key)
@@ -609,7 +691,12 @@ func ExecCtl(c CaseCtl) *vkit.Result {
 			switch m.status[st.Actor] {
 			case stWaiting:
 				km := m.keys[m.key[st.Actor]]
-				if km.queue[0].actor == st.Actor {
+				if m.fixed[st.Actor] {
+					res.Class("cancel-aimed-at-uncancellable-waiter")
+				} else if km.queue[0].actor == st.Actor {
+					if r.live {
+						res.Class("live-deadline-fires-at-head")
+					}
 					if len(km.queue) > 1 {
 						res.Class("cancel-head-with-followers")
 					} else {
@@ -617,6 +704,9 @@ func ExecCtl(c CaseCtl) *vkit.Result {
 					}
 				} else {
 					res.Class("cancel-mid-queue")
+					if r.live {
+						res.Class("live-deadline-fires-mid-queue")
+					}
 				}
 			case stHolding:
 				res.Class("cancel-of-holder")
@@ -1037,7 +1127,7 @@ func ExecTie(c CaseTie) *vkit.Result {
 
 var PartCtl = &vkit.Part[CaseCtl]{
 	Property: Property, Name: "controlled",
-	Rule:  "rapid: {variant single|wide-modulo|wide-xxhash, shards 1/2/3/7/73, rwRatio 1/2/3/5/10/127/128/256/65537/MaxInt32/MaxInt/2+1/MaxInt-3/MaxInt or the option-less defaults, 1-3 keys incl. same-shard and same-value-different-type pairs} + 4-30 steps drawn by folding the reference model (acquire R/W incl. pre-cancelled contexts, release by a current holder, cancel of head / mid-queue waiters, holders, finished actors); every acquire on its own goroutine, quiescence (stop-the-world goroutine-state cut) after every step, observed {acquired, failed, parked} per actor compared with the weighted-FIFO model, an independent per-key holder count checks exclusion, idle keys must have no entry, final drain must leave 0 entries. Non-trivial: at least one acquire had to wait; distinct = distinct case JSON",
+	Rule:  "rapid: {variant single|wide-modulo|wide-xxhash, shards 1/2/3/7/73, rwRatio 1/2/3/5/10/127/128/256/65537/MaxInt32/MaxInt/2+1/MaxInt-3/MaxInt or the option-less defaults, 1-3 keys incl. same-shard and same-value-different-type pairs} + 4-30 steps drawn by folding the reference model (acquire R/W incl. pre-cancelled contexts; context kind per acquire: WithCancel, expired WithDeadline, Background/TODO/WithValue/WithoutCancel - which a cancel step cannot end, at most 4 per case - or a harness-owned context whose deadline the cancel step fires while the acquire is queued; release by a current holder, cancel of head / mid-queue waiters, holders, finished actors); every acquire on its own goroutine, quiescence (stop-the-world goroutine-state cut) after every step, observed {acquired, failed, parked} per actor compared with the weighted-FIFO model, an independent per-key holder count checks exclusion, idle keys must have no entry, final drain must leave 0 entries. Non-trivial: at least one acquire had to wait; distinct = distinct case JSON",
 	Quick: 3000, Thorough: 20000,
 	Gen: GenCtl, Exec: ExecCtl,
 }
